@@ -32,7 +32,9 @@ def main():
         os.remove(f)
     build.translate()
     build.build_driver()
-    p = subprocess.run(["cargo", "+nightly", "build", "--offline", "--release"], cwd=os.path.join(ROOT, "harness"), env=env, stdout=subprocess.PIPE, stderr=subprocess.STDOUT, text=True)
+    with build.Lock("build"):      # (the manifest is shared with the checks: hold the build lock while it is written and used)
+        build.write_harness_manifest()
+        p = subprocess.run(["cargo", "+nightly", "build", "--offline", "--release"], cwd=os.path.join(ROOT, "harness"), env=env, stdout=subprocess.PIPE, stderr=subprocess.STDOUT, text=True)
     if p.returncode:
         sys.exit(p.stdout[-3000:])
     for f in glob.glob(os.path.join(PROF, "build-*.profraw")):
